@@ -54,21 +54,21 @@ struct FuelExhausted(&'static str, bool);
 pub const MEM_CAP_BYTES: isize = 64 << 20;
 
 // last tick site per caller thread, readable by the simulator thread when the wall-clock backstop fires
-static LAST_SITE_PTR: [AtomicUsize; 8] = [const { AtomicUsize::new(0) }; 8];
-static LAST_SITE_LEN: [AtomicUsize; 8] = [const { AtomicUsize::new(0) }; 8];
+// (pointer << 16 | length) of the site literal in ONE word: a reader can never see a half-published site (a job
+// stuck in a loop that publishes all the time - the builder writing without end - used to be read as "none" now and
+// then, which made the key of a known hang look like a new one)
+static LAST_SITE: [AtomicUsize; 8] = [const { AtomicUsize::new(0) }; 8];
 fn publish_site(tid: usize, site: &'static str) {
     if tid < 8 {
-        LAST_SITE_LEN[tid].store(0, Ordering::Relaxed);
-        LAST_SITE_PTR[tid].store(site.as_ptr() as usize, Ordering::Relaxed);
-        LAST_SITE_LEN[tid].store(site.len(), Ordering::Release);
+        LAST_SITE[tid].store(((site.as_ptr() as usize) << 16) | (site.len() & 0xffff), Ordering::Release);
     }
 }
 pub fn last_site_of(tid: usize) -> String {
     if tid >= 8 {
         return "?".into();
     }
-    let len = LAST_SITE_LEN[tid].load(Ordering::Acquire);
-    let ptr = LAST_SITE_PTR[tid].load(Ordering::Relaxed);
+    let v = LAST_SITE[tid].load(Ordering::Acquire);
+    let (ptr, len) = (v >> 16, v & 0xffff);
     if len == 0 || ptr == 0 {
         return "none".into();
     }
